@@ -39,6 +39,7 @@ type gscope struct {
 }
 
 type world struct {
+	source  string // the program js_parser built this world from (parsed worlds)
 	syms    []gsym
 	base    []int // first global id of every source
 	modules []*gscope
@@ -164,6 +165,23 @@ func genWorld(r *Rng, maxSources int) *world {
 					}
 					if r.Chance(15) {
 						sc.generated = append(sc.generated, newSym(pickName(), ast.SymbolOther, 0))
+					}
+					if r.Chance(15) {
+						// the shape of a sloppy-mode function in a block (Annex B.3.3): a generated
+						// hoisted symbol listed in this scope's Generated AND a member of the parent
+						// scope, followed by a sibling scope with more locals than this scope has
+						id := newSym(pickName(), ast.SymbolHoisted, 0)
+						if w.syms[id].name == "" {
+							w.syms[id].name = "h"
+						}
+						parent.members = append(parent.members, id)
+						sc.generated = append(sc.generated, id)
+						sib := &gscope{label: -1, parent: parent}
+						parent.children = append(parent.children, sib)
+						all = append(all, sib)
+						for k := len(sc.members) + r.Range(1, 3); k > 0; k-- {
+							sib.members = append(sib.members, newSym(pickName(), ast.SymbolOther, 0))
+						}
 					}
 					if r.Chance(25) {
 						// hoisted var: member of this scope and of a run of ancestors
@@ -356,7 +374,12 @@ func (w *world) describe() map[string]interface{} {
 	for id, s := range w.syms {
 		syms = append(syms, fmt.Sprintf("%d:%q ns=%d link=%d jsx=%v", id, s.name, w.ns(id), s.link, s.flags.Has(ast.MustStartWithCapitalLetterForJSX)))
 	}
-	return map[string]interface{}{"symbols": syms, "module_scopes": coqScopes(w.modules)}
+	d := map[string]interface{}{"symbols": syms, "module_scopes": coqScopes(w.modules)}
+	if w.source != "" {
+		d["program"] = w.source
+		d["api"] = "js_parser.Parse + renamer.AssignNestedScopeSlots"
+	}
+	return d
 }
 
 // ---- harness-side oracle helpers (mirror Spec.v)
@@ -922,6 +945,7 @@ func parsedWorlds(r *Rng, n int, st *Stats) []*world {
 		g.noWith = r.Bool()
 		g.noFnInBlock = !g.noWith
 		g.evalSibs = r.Chance(25)
+		g.annexSibs = r.Chance(40)
 		var src string
 		if r.Chance(35) {
 			g.module = true
@@ -935,6 +959,9 @@ func parsedWorlds(r *Rng, n int, st *Stats) []*world {
 			}
 		}
 		w := worldFromSource(src, false)
+		if w != nil {
+			w.source = src
+		}
 		if w == nil || len(w.syms) > 90 {
 			st.Histogram["parsed-forest-skipped"]++
 			continue
